@@ -19,7 +19,7 @@ D=/verif/seeded/$ID-$SUF; mkdir -p $D; cp seed_out/patch.diff seed_out/demo.py $
 import json,sys,subprocess
 pid,w,d,t=sys.argv[1:5]
 m=json.load(open(w+'/seed_out/meta.json'))
-m["origin"]="independent sub-agent given only the property text and a scratch worktree (round 2: told which ideas were already taken)"
+m["origin"]="independent sub-agent given only the property text(s), a list of ideas already taken, and a scratch worktree"
 head=subprocess.run(["git","-C",w,"rev-parse","--short","HEAD"],capture_output=True,text=True).stdout.strip()
 m["verified_by_me"]={"base_commit":head,"pytest_with_patch":t,"demo_with_patch_exit":1,"demo_without_patch_exit":0,
  "commands":["PYTHONPATH=<wt> /venv/bin/python -m pytest -q -p no:cacheprovider","PYTHONPATH=<wt> /venv/bin/python demo.py","git apply -R patch.diff && PYTHONPATH=<wt> /venv/bin/python demo.py"]}
